@@ -122,6 +122,7 @@ AddrSearch(ed, a) ==
                       ELSE CHOOSE r \in cand : \A q \in cand : r >= q, ed1>>
 
 (* ex_lineno(): <<0-based line number (possibly out of range), ed'>> *)
+NoLine == 0 - 1073741824
 AddrLine(ed, a) ==
     LET base == CASE a.b = "dot"  -> <<ed.row, ed>>
                   [] a.b = "none" -> <<ed.row, ed>>
@@ -129,7 +130,9 @@ AddrLine(ed, a) ==
                   [] a.b = "num"  -> <<a.n - 1, ed>>
                   [] a.b = "mark" -> <<IF a.m \in DOMAIN ed.marks THEN ed.marks[a.m].row ELSE -1, ed>>
                   [] OTHER        -> AddrSearch(ed, a)
-    IN IF a.b = "mark" /\ base[1] < 0 THEN <<-1, ed>>       \* unset mark: no offsets applied
+    (* a mark that is not set and a pattern that is not found name no line: the value makes every range with it invalid *)
+    IN IF a.b = "mark" /\ base[1] < 0 THEN <<NoLine, ed>>
+       ELSE IF a.b \notin {"dot", "none", "last", "num", "mark"} /\ base[1] < 0 THEN <<NoLine, base[2]>>
        ELSE <<base[1] + SumSeq(a.offs), base[2]>>
 
 (* ex_region(): loc = sequence of [a |-> addr, sep |-> "," | ";" | ""]; PctLoc stands for "%" *)
@@ -330,6 +333,8 @@ ExStep(ed0, c) ==
                                       !.kwddir = IF c.re # <<>> THEN 1 ELSE ed.kwddir]
                     cp == Compile(ed1.kwd)
                 IN IF ed1.kwddir = 0 \/ ~cp.ok THEN Fail(ed1)
+                   (* an empty range (2,1 or address 0) holds no line to visit *)
+                   ELSE IF r.beg < 0 \/ r.beg >= r.end THEN Ok(ed1)
                    ELSE LET g == GlobLoop([ed1 EXCEPT !.gdep = ed1.gdep + 1], cp, k = "v", c.cmds, r.beg,
                                           (r.beg + 1)..(r.end - 1))
                         IN Ok([g EXCEPT !.gdep = ed1.gdep])
